@@ -14,7 +14,7 @@ import sqlite3
 
 from sim import devices
 from sim.canon import Log, dec_table, canon_rows
-from sim.core import outcome
+from sim.core import outcome, draw_config
 from sim.devices import (SimTable, SimSourceError, SimSourceAbort, PipeFault,
                          SOURCE_ERROR_KINDS, INJECTED_SOURCE_FAILURES)
 from sim.loader import load_petl
@@ -72,6 +72,15 @@ def _gen_rows(rng, cols, n):
 
 
 def gen_case(rng, tier, g):
+    case = _gen_case(rng, tier, g)
+    # the host application's petl.config / logging set-up must not matter
+    cfg = draw_config(rng, 0.12, exclude=('failonerror',))
+    if cfg:
+        case['config'] = cfg
+    return case
+
+
+def _gen_case(rng, tier, g):
     cols = rng.choice(COLSETS)
     n = rng.randint(0, 8 if tier == 'thorough' else 6)
     hdr = list(cols)
